@@ -946,19 +946,21 @@ class Reader(ABC):
                         np.median(jday), jday)
         if_wrong_jday = np.ediff1d(jday, to_begin=jday.dtype.type(0))
         jday = np.where(if_wrong_jday < 0, max(jday), jday)
+        # The ideal time of day wraps at midnight together with the day of year
+        msec_lineno_of_day = msec_lineno - (jday - jday[0]) * 24 * 3600 * 1000.0
 
         if_wrong_msec = np.where(msec < 1)
         if_wrong_msec = if_wrong_msec[0]
         if len(if_wrong_msec) > 0:
             if if_wrong_msec[0] != 0:
-                msec = msec[0] + msec_lineno
+                msec = msec[0] + msec_lineno_of_day
             else:
                 msec0 = np.median(msec - msec_lineno)
                 msec = msec0 + msec_lineno
 
         if_wrong_msec = np.ediff1d(msec, to_begin=msec.dtype.type(0))
         msec = np.where(np.logical_and(np.logical_or(if_wrong_msec < -1000, if_wrong_msec > 1000), if_wrong_jday != 1),
-                        msec[0] + msec_lineno, msec)
+                        msec[0] + msec_lineno_of_day, msec)
 
         # checking if year value is out of valid range
         if_wrong_year = np.where(
